@@ -4,6 +4,7 @@ CONSTANTS
   MaxLen = 3
   MaxOps = 3
   Depth = 3
+  Universe = "adv"
   BType = "hash"
   BRawId = ""
   Proj <- FullProj
